@@ -8,22 +8,24 @@ ENV = "GOFLAGS=-mod=mod GOPROXY=off GOSUMDB=off GOTOOLCHAIN=local GOWORK=off"
 # property -> (technique, level text, level note, design ref)
 CLAIMED = {
     "C02": (
-        "index-space typing over go/ssa (IDX-1..5: positions vs vertex ids vs attribute positions vs primitive numbers, kinds from type-resolved sources), attribute-family completeness and lock-step control equivalence (FAM-1/2, WF-1), must-pass-through of index remap loops (REMAP-1), length pairing of the append helper (FILL-1, PAIR-2), generator array-length agreement and multiple-of-three growth (GEN-LEN, GEN-3)",
+        "index-space typing over go/ssa (IDX-1..5: positions vs vertex ids vs attribute positions vs primitive numbers, kinds from type-resolved sources), attribute-family completeness and lock-step control equivalence (FAM-1/2, WF-1), must-pass-through of index remap loops (REMAP-1), length pairing of the append helper (FILL-1, PAIR-2), generator array-length agreement as polynomials and multiple-of-three growth (GEN-LEN, GEN-3), interval-polynomial bound of generator index formulas against the vertex count with coefficient certificate / grid witness (GEN-BOUND)",
         "Decides for every mesh operation in modeling/** and every path: attribute data and per-vertex tables are never subscripted with a position of the index array, "
         "no bare position is written as a vertex id into an index array that keeps the input's attributes (SetIndices, Mesh literals, NewMesh arrays other than the identity fill), "
         "the index array is never subscripted with a vertex id, a vertex id is only offset by a vertex count, every function that rebuilds attribute arrays handles all four "
         "attribute families in lock-step, index remap loops lie on every path to the hand-off of the remapped array, Append's zero-fill runs for the other mesh's vertex count with lengths paired to their maps; "
-        "for the generators: per-vertex arrays of one mesh are made with the same length expression or receive the same symbolic number of elements, and triangle index arrays grow by multiples of three. "
+        "for the generators: per-vertex arrays of one mesh hold the same number of elements as polynomials in the parameters (make length, or elements x loop trip counts per append site), triangle index arrays grow by multiples of three, "
+        "and every emitted index whose formula is a polynomial in loop counters, x % m and parameters stays in [0, vertex count) for every parameterisation the generator's guards accept (HOLDS by a non-negative-coefficient certificate, VIOLATION only with a concrete parameter witness; formulas outside the fragment carry no obligation). "
         "Necessary conditions of 'every index refers to an existing vertex / one common attribute length / indices fit the topology' for every index pattern, attribute mix and parameterisation at once; "
-        "generator index formulas (strides, wrap-around) and shift-table arithmetic are not decided.",
+        "Generator index formulas that are data-dependent (triangulation, marching cubes), which vertex list an id refers to, and shift-table arithmetic are not decided.",
         "go/types + go/ssa of x/tools v0.29.0; kinds are assigned only from Mesh.Indices / FloatNAttribute / AttributeLength / PrimitiveCount / Tri.P1.. / Mesh field objects; untyped integers and unrecognised array constructions are never judged (no false alarm, possible miss).",
         "DESIGN.md 0, 3.2, 4 C02",
     ),
     "C03": (
-        "def-use shape analysis of the 23 element-wise operations (SHAPE-1..4), polynomial element laws on a symbolic SSA interpreter (ELEM-1), connectivity-based operations (NEIGH-1..4), permutation check of the winding flip (PERM-1), attribute-name reachability (ATTR-1), shortcut and rounding rules (SHORT-1, ROUND-1), index-space typing and family lock-step (IDX, FAM, WF) on go/ssa",
+        "def-use shape analysis of the 23 element-wise operations (SHAPE-1..4), polynomial element laws on a symbolic SSA interpreter (ELEM-1), connectivity-based operations (NEIGH-1..5), keep decision of the box crop over the 125 orderings of a point against the box (CROP-1/2), renumber-table order (RENUM-1), permutation check of the winding flip (PERM-1), attribute-name reachability (ATTR-1), shortcut and rounding rules (SHORT-1, ROUND-1), index-space typing and family lock-step (IDX, FAM, WF) on go/ssa",
         "Decides for each single-attribute transform (table resolved by name) that the result is the input mesh value with exactly the attribute that was read replaced by an array of the same length whose element j is computed from element j, "
         "unconditionally for all j, using every value parameter, AND that the stored element equals the stated map as a polynomial identity (translate v+a, scale about origin o+(v-o)*a, along normal v+n*a, rotate q v conj(q), centre v-(lo+hi)/2, normalise v/L, TRS); "
-        "for flat/smooth normals and Laplacian smoothing that only the documented attribute of the input mesh is replaced, with the vertex-array length, face normals are cross(P2-P1, P3-P1) of the corners in index order, every parameter matters, neighbour lookups use the vertex being updated; "
+        "for flat/smooth normals and Laplacian smoothing that only the documented attribute of the input mesh is replaced, with the vertex-array length, face normals are cross(P2-P1, P3-P1) of the corners in index order, every parameter matters, neighbour lookups use the vertex being updated and every Laplacian iteration continues from the previous one; "
+        "for the crop that keep(p) <=> min <= p <= max on every axis (AABB.Contains interpreted over all orderings) with p the named attribute at the element decided; that renumber tables hand out new ids in the order the attribute arrays are compacted; "
         "for the layout operations that corner gathers go through the vertex id, the flip is an odd permutation within one triangle, all attribute families are carried in lock-step, every attribute-name parameter reaches a data access, "
         "no layout operation returns its input unchanged except for empty input, and the weld hash rounds symmetrically. Holds for every mesh and parameter at once; weld cells beyond the rounding function, Laplacian weights and compositions are not decided.",
         "go/types + go/ssa of x/tools v0.29.0; the tables of operations are frozen in the checker (a renamed operation fails as unresolved anchor); real arithmetic for the element laws.",
@@ -47,7 +49,7 @@ CLAIMED.update({
         "modeling no write acts on a value that can reach mesh storage (Materials() results, iterator internals, callee parameters fed with mesh storage), that no locally built array or builder-struct field "
         "is written after it was handed to a mesh, that package-level arrays handed to meshes are never written, and that modeling uses no reflect/unsafe. Because Mesh's storage fields are unexported this "
         "gives, by induction over operations, 'no public mesh operation writes an array reachable from an existing mesh' for every history and branching order - sufficient as well as necessary within the model. "
-        "Not covered: writes by user code/callbacks, *Material pointees.",
+        "Material pointees reached through Mesh.Materials() are never stored into (OWN-6). Not covered: writes by user code/callbacks.",
         "go/types + go/ssa of x/tools v0.29.0; struct fields merged per field object; dynamic callees receiving mesh storage are UNDECIDED (none today); one named exception (obj.Load sets Material pointers of meshes it has just read and not yet returned).",
         "DESIGN.md 3.1, 4 C01",
     ),
